@@ -170,6 +170,10 @@ class Gen:
         if k < 5 or d <= 0:
             return self.ident()
         if k < 7:
+            if self.r.chance(1, 3):
+                # a path of several links (also rooted at this): every link but the last is read once
+                self.tags.add('target-deep-path')
+                return self.r.choice(["this", self.ident()]) + "." + self.r.choice(["state", "p"]) + self.r.choice([".text", ".q", "[k]", "[f()]", ".r.s"])
             return self.ident() + "." + self.r.choice(["p", "q"])
         if k < 9:
             self.tags.add('target-computed')
